@@ -88,6 +88,11 @@ func execDirectFunction(vm *r.VM, funcName *r.IDName, params []r.Element) (r.Ele
 	if err != nil {
 		return nil, err
 	}
+	// a name bound where no module is running (an input-variable text) belongs to no
+	// module: it can only hold a plain value, which the check below rejects
+	if module == nil {
+		module = r.NativeCodeModule
+	}
 	// pushCallFrame
 	fnCallFrame := r.NewFunctionCallFrame(module, nil)
 	vm.PushCallFrame(fnCallFrame)
